@@ -168,7 +168,10 @@ def g_phase(rng):
         deps = sorted(rng.sample(ids[:-1], min(len(ids) - 1, rng.randint(0, 2))))
         cond = ["cb", True]
         if guard_ok and rng.random() < 0.25:
-            cond = rng.choice([["v", "fl"], ["not", ["v", "fl"]], ["and", [["v", "fl"], ["v", "gl"]]]])
+            # (a DISJUNCTION as a guard is not something the builder produces, but hand-made statements may carry one:
+            # it is ONE conjunct to the passes' guard-combining helper)
+            cond = rng.choice([["v", "fl"], ["not", ["v", "fl"]], ["and", [["v", "fl"], ["v", "gl"]]],
+                               ["or", [["v", "fl"], ["v", "gl"]]], ["and", [["or", [["v", "fl"], ["v", "gl"]]], ["v", "fl"]]]])
         r = rng.random()
         d = rng.choice([1, 2, 2, 3])
         if rng.random() < 0.14:
